@@ -9,7 +9,9 @@ func Opts(t ...any) []cmp.Option {
 	opts := make([]cmp.Option, 0)
 
 	for _, v := range t {
-		opts = append(opts, cmpopts.IgnoreUnexported(v), cmpopts.IgnoreFields(v, "Ref"), cmpopts.IgnoreFields(v, "AnyOf"))
+		// What a schema refers to is part of what it is: {"$ref": "#/$defs/A"},
+		// {"$ref": "#/$defs/B"} and {} are three different schemas.
+		opts = append(opts, cmpopts.IgnoreUnexported(v), cmpopts.IgnoreFields(v, "AnyOf"))
 	}
 
 	return opts
